@@ -5,6 +5,8 @@ import (
 	"strconv"
 
 	"google.golang.org/grpc"
+	"google.golang.org/grpc/codes"
+	"google.golang.org/grpc/status"
 
 	"github.com/smart-core-os/sc-api/go/traits"
 )
@@ -33,14 +35,17 @@ func (m *ModelServer) ListWasteRecords(ctx context.Context, req *traits.ListWast
 	pageToken := req.GetPageToken()
 	startIndex := m.model.GetWasteRecordCount()
 	if pageToken != "" {
-		_, err := strconv.Atoi(req.GetPageToken())
-		if err != nil {
-			return nil, err
+		index, err := strconv.Atoi(pageToken)
+		if err != nil || index < 0 || index > startIndex {
+			return nil, status.Errorf(codes.InvalidArgument, "bad page token %q", pageToken)
 		}
-		startIndex, _ = strconv.Atoi(pageToken)
+		startIndex = index
 	}
 
 	count := req.PageSize
+	if count < 0 {
+		return nil, status.Errorf(codes.InvalidArgument, "bad page size: %d is negative", count)
+	}
 	if count == 0 {
 		count = 50
 	} else if count > 1000 {
